@@ -8,14 +8,17 @@ by tools/mutate.py and the property's quick check must exit 1. Writes seeded/reg
 """
 import json, os, subprocess, sys, glob
 ROOT = os.path.dirname(os.path.dirname(os.path.abspath(__file__)))
-EXPECT_NOT_CAUGHT = {"C04-b": "neutralised by fix 8b8a59e (see seeded/README.md)"}
+EXPECT_NOT_CAUGHT = {"C04-b": "neutralised by fix 8b8a59e (see seeded/README.md)",
+                     "C14-d": "neutralised by fix 7dae99d (see seeded/README.md)"}
+# seeds whose change breaks another property than the one the agent was given: run against that check
+RUN_AGAINST = {"C01-d": "C05", "C09-d": "C11"}
 
 def main():
     ids = sys.argv[1:] or sorted(os.path.basename(os.path.dirname(p)) for p in glob.glob(os.path.join(ROOT, "seeded", "*", "meta.json")))
     out = {}
     for sid in ids:
         d = os.path.join(ROOT, "seeded", sid)
-        prop = json.load(open(os.path.join(d, "meta.json")))["property"]
+        prop = RUN_AGAINST.get(sid, json.load(open(os.path.join(d, "meta.json")))["property"])
         patch = os.path.join(d, "patch_ported_to_fixed_tree.diff")
         if not os.path.exists(patch):
             patch = os.path.join(d, "patch.diff")
